@@ -829,6 +829,10 @@ def parallel(ctx):
         if "par_case" in rp:
             rc0, runs0, fin0, err0 = par_run(ctx, exe, [_RawCase(rp["par_case"])])
             ctx.log("replayed parallel case: %s" % (runs0[0] if runs0 else err0[-400:]))
+            r0 = runs0[0] if runs0 else None
+            if r0 is None or r0["rc"] != 0 or any(a[:2] != b[:2] for a, b in zip(r0["R"], r0["R"][1:])):
+                ctx.violation("par-replay", "replayed parallel case is still not balanced: readings (libsc, default) %s, surviving blocks (call: [(rank, size)]) %s, %s" % (
+                    [x[:2] for x in r0["R"]] if r0 else None, r0["leaks"] if r0 else None, ("simmpi code %s" % r0["rc"]) if r0 else err0[-300:]), dict(par_case=rp["par_case"]))
     rc, runs, final, err = par_run(ctx, exe, cases)
     dist = {"P": {}, "call": {}, "adversary": {}, "ranks_per_node": {}}
     nops = nleak = nsanity = 0
